@@ -105,8 +105,24 @@ func vFileOnTheWay(snap []vNode, p string) bool {
 // access shows, for every path of the alphabet (afero's MemMapFs can be left
 // with entries that are reachable by path but not listed, or with a directory
 // that also carries file data, after calls with conflicting arguments).
-func vBackendConsistent(inner afero.Fs) bool {
-	idx := vIndex(vSnapshot(inner, "/"))
+func vBackendConsistent(inner afero.Fs, before []vNode) bool {
+	snap := vSnapshot(inner, "/")
+	idx := vIndex(snap)
+	// nothing that used to be listed and no longer is can still be reached by its path
+	for _, n := range before {
+		if _, listed := idx[n.path]; !listed {
+			if _, err := inner.Stat(n.path); err == nil {
+				return false
+			}
+		}
+	}
+	// everything a directory lists can be reached by its path, as what it is listed as
+	for _, n := range snap {
+		fi, err := inner.Stat(n.path)
+		if err != nil || fi.IsDir() != n.dir {
+			return false
+		}
+	}
 	for _, p := range vC06Paths {
 		fi, err := inner.Stat(p)
 		n, listed := idx[p]
@@ -208,7 +224,7 @@ func VerifC06_Programs() {
 		case 5, 6, 7: // copy / copy to directory / move
 			q := vC06Paths[verif.Choice("q", len(vC06Paths))]
 			_, qExists := vIndex(before)[q]
-			conflicting = conflicting || vFileOnTheWay(before, q) || qExists
+			conflicting = conflicting || vFileOnTheWay(before, q) || qExists || (vIsUnder(p, q) && p != q)
 			srcBefore := vSubtree(before, p)
 			overlapping := vIsUnder(p, q) && p != q // destination strictly inside the source
 			movingIntoItself := overlapping && op == 7
@@ -314,7 +330,7 @@ func VerifC06_Programs() {
 		}
 		verif.Assert("no_handle_left_open", rec.opens == rec.closes)
 		rec.before = nil
-		if !vBackendConsistent(rec.inner) {
+		if !vBackendConsistent(rec.inner, before) {
 			// a later call would start from a state no consistent filesystem can be in
 			verif.AssertKnown("backend_state_stays_consistent", false, "KF-C06-memory-backend-inconsistent-after-conflicting-call", conflicting)
 			verif.Stop()
@@ -449,3 +465,4 @@ func VerifC06_MoveFolderUnderFaults() {
 	}
 	verif.Assert("no_handle_left_open", rec.opens == rec.closes)
 }
+
